@@ -308,7 +308,7 @@ type c14hFirst struct {
 // c14hTable: the alphabet of first values, stored without pointers (the collector runs before the histories of every
 // first value and would otherwise walk the whole table each time).
 type c14hTable struct {
-	blob string
+	blob []byte
 	off  []int32
 	cls  []byte // 'c' cyclic, 'd' over-deep
 	full []bool
@@ -316,7 +316,7 @@ type c14hTable struct {
 
 func (t *c14hTable) add(desc string, cls byte, full bool) {
 	t.off = append(t.off, int32(len(t.blob)))
-	t.blob += desc + "\n"
+	t.blob = append(append(t.blob, desc...), '\n')
 	t.cls = append(t.cls, cls)
 	t.full = append(t.full, full)
 }
@@ -328,7 +328,7 @@ func (t *c14hTable) desc(i int) string {
 	if i+1 < len(t.off) {
 		end = int(t.off[i+1])
 	}
-	return t.blob[t.off[i] : end-1]
+	return string(t.blob[t.off[i] : end-1])
 }
 
 func (t *c14hTable) get(i int) *c14hFirst {
@@ -667,8 +667,8 @@ func (c *c14hRunner) history(fv *c14hFirst, sp *c14hSpec, op1, mid, op2 string) 
 }
 
 // c14hPairs: the (op1, mid, op2) alphabet of a first value.  lite (3-node graphs, quick tier): Serialize;Serialize.
-// Otherwise quick: every op as op1 with Serialize as op2 and Serialize as op1 with every op as op2 (each once and twice);
-// thorough: the full product.
+// Otherwise quick: every op as op1 with Serialize as op2 and Serialize as op1 with every op as op2, first step once, and
+// Serialize;Serialize;Serialize; thorough: the full product, first step once and twice.
 func c14hPairs(full, thorough bool) (out [][3]string) {
 	if !full {
 		return [][3]string{{"serialize", "", "serialize"}}
@@ -676,7 +676,7 @@ func c14hPairs(full, thorough bool) (out [][3]string) {
 	for _, op1 := range c14hOps {
 		for _, mid := range []string{"", "again"} {
 			for _, op2 := range c14hOps {
-				if thorough || op1 == "serialize" || op2 == "serialize" {
+				if thorough || (mid == "" && (op1 == "serialize" || op2 == "serialize")) || (op1 == "serialize" && op2 == "serialize") {
 					out = append(out, [3]string{op1, mid, op2})
 				}
 			}
@@ -744,7 +744,7 @@ func TestVerif_C14_history(t *testing.T) {
 		"two collections before the histories of each first value (sync.Pool state is deterministic). distinct = (step, relation of the second value to the first, class, outcome)")
 	r.Bound("first values: all canonical graphs with <=3 container nodes x <=2 slots x 1 primitive that are cyclic on the examined walk; back-referring chains of 4..6 containers (M/ASM/AM, link in slot 0/1, every target); " +
 		"acyclic chains of MAX_STRUCT_DEPTH+1..+3 containers (A/S/M/ASM/MA, link in slot 0/1). second values: no cut + every single reference slot cut, every node (that contains the cut container) as root, bare/new array/new struct/new map, 3 unrelated fresh values. " +
-		"operations: " + c14hPick(r, "(op1,Serialize) and (Serialize,op2) for the 5 ops", "5 x 5 ops") + ", first step once/twice; " +
+		"operations: " + c14hPick(r, "(op1,Serialize) and (Serialize,op2) for the 5 ops with the first step once, Serialize;Serialize also with the first step twice", "5 x 5 ops, first step once/twice") + "; " +
 		c14hPick(r, "on the 3-node graphs only Serialize;Serialize on bare nodes", "the 3-node graphs like the others"))
 	r.Assume("first values whose cycle lies off the examined walk (slot > 0 of an array or struct) are excluded: on them the process dies (listed findings of the part vmvalue); second values that became such values are skipped and counted")
 
@@ -823,10 +823,10 @@ func TestVerif_C14_history(t *testing.T) {
 	r.Set("history_first_values", nfirst)
 	r.Set("history_alphabet", firsts.n())
 
+	// non-vacuity (classes that every shard meets; the over-deep ones are required across shards by checks.d need_classes)
 	if !r.R.CapHit && r.R.NViolations == 0 {
 		need := func(k string) { r.Need(c.classes[k] > 0, "outcome class %q never observed", k) }
 		need("history:step1:cyclic:rejected")
-		need("history:step1:overdeep:rejected")
 		need("history:step2:sub-value:acyclic:ok:same-as-fresh")
 		need("history:step2:repaired-value:acyclic:ok:same-as-fresh")
 		need("history:step2:repaired-value:cyclic:rejected")
